@@ -1,4 +1,5 @@
 // Minimal JSON value + writer (the driver has no crate dependencies).
+#[derive(Clone)]
 pub enum J {
     Null,
     Bool(bool),
